@@ -30,7 +30,7 @@ THEOREMS = ['Props.C10.' + t for t in [
     'edit_histories_preserve_structure', 'edit_history_then_setup_names',
     'rename_column_preserves', 'rename_layer_preserves', 'copy_layers_from_establishes_invariant',
     'refine_layers_establishes_invariant_partial', 'snap_columns_to_layers_preserves_structure',
-    'snap_columns_to_nearest_layers_preserves_structure', 'identify_neighbours_identity']]
+    'snap_columns_to_nearest_layers_preserves_structure', 'identify_neighbours_identity', 'delete_orphans_preserves']]
 LEVEL_TEXT = ('Partial proof. Lean 4 state-machine model of mulgrid (heap of nodes/columns/connections/layers/wells with explicit ids and '
               'hand-maintained back-references; add_/delete_ node/column/connection/layer/well, split_column, rename_column/layer, '
               'subdivide/triangulate/decompose_column(s), refine incl. the boundary walker and bisection, refine_layers, reduce, check(fix), '
@@ -131,13 +131,16 @@ def subsets(items, maxn=None):
 
 
 def fresh_name(g, kind, rng, length=3):
+    """a name for a new / renamed object.  UPPER CASE only: the library generates lower-case (or numeric) names, and
+    which of those are in use after two refinements depends on set iteration order — an upper-case name is new in
+    every run, so a recorded history replays identically"""
     d = getattr(g, kind)
-    for c in 'zyxwvutsrq':
+    for c in 'ZYXWVUTSRQ':
         nm = c.rjust(length)
         if nm not in d:
             return nm
     while True:
-        nm = ''.join(rng.choice('abcdefghijklmnopqrstuvwxyz') for _ in range(length))
+        nm = ''.join(rng.choice('ABCDEFGHIJKLMNOPQRSTUVWXYZ') for _ in range(length))
         if nm not in d:
             return nm
 
@@ -201,7 +204,7 @@ def column_layer_ops(mg, g, rng, subset_cap):
         for nd in (c.node if c.num_nodes == 4 else c.node[:1]):
             ops.append(['split_column', {'col': locs[i], 'node': G.node_loc(nd)}])
     if n >= 2:
-        ops.append(['rename_column', {'cols': locs[:2], 'new': [' zz'[-g.colname_length:], ' yy'[-g.colname_length:]]}])
+        ops.append(['rename_column', {'cols': locs[:2], 'new': [' ZZ'[-g.colname_length:], ' YY'[-g.colname_length:]]}])
     lays = [l.name for l in g.layerlist[1:]]
     for s in subsets(lays)[:15]:
         for f in (2, 3, 4):
@@ -260,6 +263,8 @@ def random_op(mg, g, rng, inv):
         if pick == 'copy_layers':
             return ['copy_layers_from', {'dz': [H(rng.choice([1., 2., 3.])) for _ in range(rng.randint(1, 4))],
                                          'top': H(g.layerlist[0].bottom if g.layerlist else 0.)}]
+        if pick == 'roundtrip' and not G.roundtrip_safe(g):
+            pick = 'setup_names'
         if pick not in ('reduce_all', 'snap_all'):
             return [pick]
     if not G.mesh_valid(inv) and rng.random() < 0.6:
@@ -404,13 +409,24 @@ def random_op(mg, g, rng, inv):
     if r < 0.91:
         return ['copy_layers_from', {'dz': [H(rng.choice([1., 2., 3.])) for _ in range(rng.randint(1, 4))],
                                      'top': H(g.layerlist[0].bottom if g.layerlist else 0.)}]
+    if r < 0.925 and healthy and len(cols) <= 60 and g.layerlist:
+        # fit_surface: scattered elevations over the grid (least-squares fit by scipy; oracle only, not modelled)
+        b = g.bounds
+        zs = [l.bottom for l in g.layerlist]
+        pts = [[H(b[0][0] + (b[1][0] - b[0][0]) * rng.randint(1, 31) / 32.), H(b[0][1] + (b[1][1] - b[0][1]) * rng.randint(1, 31) / 32.),
+                H(rng.uniform(min(zs) + 1.0, max(zs) + 1.0))] for _ in range(rng.randint(6, 20))]
+        sel = some_cols() if rng.random() < 0.5 else []
+        # (layer_snap > 0 snaps to the surface layer, which a column fitted below the lowest layer does not have:
+        #  only used when all data lie at least 3 above the bottom of the stack)
+        high = all(G.unhx(p[2]) >= min(zs) + 3.0 for p in pts)
+        return ['fit_surface', {'data': pts, 'cols': L(sel), 'layer_snap': H(rng.choice([0.0, 0.5]) if high else 0.0)}]
     if r < 0.93:
         return ['identify_neighbours']
     if r < 0.95:
         return ['setup_names']
     if r < 0.97:
         return ['check_fix']
-    return ['roundtrip']
+    return ['roundtrip'] if G.roundtrip_safe(g) else ['setup_names']
 
 
 # ----------------------------------------------------------------------------- run
